@@ -881,3 +881,35 @@ def prim_scripts(rng, n_prim, n_pa, tables=("sine", "attack", "decay"), kinds=No
         res.append(pa_script(rng, "pa-%d" % i, rng.randrange(40, 400), kind=rng.choice(kinds) if kinds else None,
                              extreme=(i % 5 == 4)))
     return res
+
+
+def consts_script(sid, modules, glide_rates=(100.0, 1000.0, 44100.0, 48000.0)):
+    """the constants of the given modules AS COMPILED (verif_consts hooks) against the constants the model was
+    generated with: a changed value that the translator could not locate in the source text (renamed, moved,
+    written as an expression it cannot evaluate) shows here as a correspondence failure"""
+    ops = ["prim.new"]
+    for m in modules:
+        if m == "glide":
+            ops += ["consts glide " + hx(fs) for fs in glide_rates]
+        else:
+            ops.append("consts " + m)
+    return Script(sid, ops, {"module": "prim", "family": "consts"})
+
+
+def conv_script(rng, sid, n=120):
+    """the public conversions of the clamping newtypes: f32::from(TimePeriod::from(x)), f32::from(SustainLevel::from(x)),
+    u8::from(Note::from(n)) / Note::new(n), on specials, the range end points and their neighbours, random values"""
+    ops = ["prim.new"]
+    edges = [0.001, 20.0, 0.0, 1.0]
+    vals = list(SPECIAL_FLOATS)
+    for e in edges:
+        vals += [f32(e), next_up(f32(e)), next_down(f32(e))]
+    for v in vals:
+        ops.append("tp " + fhex(v))
+        ops.append("sl " + fhex(v))
+    for _ in range(n):
+        v = rand_f32(rng)
+        ops.append(rng.choice(["tp ", "sl "]) + fhex(v))
+    ops += ["note %d" % k for k in range(256)]
+    return Script(sid, ops, {"module": "prim", "family": "conversions"})
+
